@@ -20,10 +20,13 @@ CONSTANTS MaxLen, Mode     \* Mode: "wrapped" (C03 clause 1-2, suggestions off),
 VARIABLE text
 ClassTokens == {"L*", "D*", "N*", "Q*", "C*", "B*", "S*"}
 TypeableChars == AlnumChars \cup MetaChars \cup {":", "`", "$", "^", "\\"}      \* the 94 typeable ASCII characters
-Tokens == IF Mode = "chars" THEN TypeableChars ELSE ClassTokens
+Tokens == IF Mode \in {"chars", "punctruns"} THEN TypeableChars ELSE ClassTokens
 
 Init == text = <<>>
-Next == Len(text) < MaxLen /\ \E t \in Tokens : text' = Append(text, t)
+\* "punctruns": every run of punctuation / symbol characters around at most one letter or digit (multi-character Avro
+\* patterns made of punctuation only - ",," ".`" "::" ... - sit next to a word or stand alone)
+RunOK(t) == Mode = "punctruns" => (t \in AlnumChars => (t \in {"a", "k", "1"} /\ \A i \in 1..Len(text) : text[i] \notin AlnumChars))
+Next == Len(text) < MaxLen /\ \E t \in Tokens : RunOK(t) /\ text' = Append(text, t)
 Spec == Init /\ [][Next]_text
 
 I == ImplSplit(text, FALSE)
